@@ -2,6 +2,11 @@
 """Adds the 'needs' text to seeded/*/meta.json (from the table below) and regenerates seeded/README.md."""
 import json, os, glob
 NEEDS = {
+ 'C15b-refused-rename-reinserts-source': 'a git rename onto an existing non-empty file (refused) whose source was edited by an earlier patch of the same push: the source entry forgets it was on disk and is rewritten in place',
+ 'C16b-only-renames-linked-in-distributor': '--threads >= 2, a non-rename patch with differing old/new names (old absent), another patch touching the file under its plain name, the two names on different workers',
+ 'C17b-goal-ignored-with-all': '-a given together with a goal argument that is unknown or already applied, with at least one patch unapplied: exit 0 and patches applied',
+ 'C18b-applied-patches-not-flushed': 'a fault on the write that appends to .pc/applied-patches: exit 0, no message',
+ 'C20b-rollback-uses-fuzz-limit': '--backup always and --fuzz strictly above the level a hunk with leading context needed: the rollback for the backups misaligns and aborts',
  'C03b-removal-keeps-suffix-context': 'a hunk with two change groups whose last group only removes lines (context in between counted as trailing context), applied with --fuzz larger than its real trailing context',
  'C07b-distributor-skips-repeated-name': '--threads >= 2 and three file patches in series order: one on X, the next relating X to Y (rename / differing names), another touching Y',
  'C09b-deleted-entry-falls-back-to-disk': 'patch i deletes or renames away X, a later patch of the same invocation has --- a/X +++ b/Y: a single push fails at it, split pushes succeed',
